@@ -404,6 +404,70 @@ func runCommand(r *evid.Run, t *table, c cmdSpec, alpha []byte, from int, st *st
 	for l := 0; l < len(frame); l++ {
 		judge("truncated", frame[:l], 0, true, plen, map[string]interface{}{"len": l})
 	}
+	// --- documented per-message limits (the repository's own constants): a message with
+	// limit−1 or exactly limit elements is written and must be read back equal; limit+1 must
+	// be refused, by the writer or by the reader
+	for _, lim := range wire.MsgLimits() {
+		if lim.Spec != c.label {
+			continue
+		}
+		for _, n := range []int{lim.Limit - 1, lim.Limit, lim.Limit + 1} {
+			idx := caseIdx
+			caseIdx++
+			if idx < from {
+				continue
+			}
+			par.Announce(fmt.Sprintf("%d|limit", idx))
+			st.evals++
+			sp, ok := wire.SpecByName(lim.Spec)
+			if !ok {
+				evid.Fatalf("no message spec %q", lim.Spec)
+			}
+			if sp.Setup != nil {
+				sp.Setup()
+			}
+			extra := map[string]interface{}{"field": lim.Path, "limit": lim.Limit, "constant": lim.Const, "count": n}
+			if err := wire.ApplyLimit(sp.Value, lim, n); err != nil {
+				evid.Fatalf("limit case %s %s: %v", lim.Spec, lim.Path, err)
+			}
+			sigTail := t.name + "|" + c.cmd + "|" + lim.Path
+			w := &bufConn{}
+			werr := p2p.WriteMessage(w, magic, sp.Value, time.Minute, getDposBlock)
+			if n > lim.Limit {
+				if werr != nil {
+					st.classes["over limit: refused by the writer"]++
+					st.distinct[t.name+"|"+c.cmd+"|limit+1|writer"] = true
+					continue
+				}
+				res := read(t, w.out.Bytes(), 0)
+				switch {
+				case res.panic != "":
+					r.Violate("C35|panic|limit|"+sigTail, "ReadMessage panics on a message one element over its limit: "+res.panic, art("limit", extra))
+				case res.err == nil:
+					r.Violate("C35|limit|accepted-over-limit|"+sigTail, fmt.Sprintf("a %s message with %d elements in %s (limit %s = %d) is read without error", c.cmd, n, lim.Path, lim.Const, lim.Limit), art("limit", extra))
+				default:
+					st.classes["over limit: refused by the reader"]++
+					st.distinct[t.name+"|"+c.cmd+"|limit+1|reader"] = true
+				}
+				continue
+			}
+			if werr != nil {
+				r.Violate("C35|limit|write-refused|"+sigTail, fmt.Sprintf("a %s message with %d elements in %s (limit %s = %d) cannot be written: %v", c.cmd, n, lim.Path, lim.Const, lim.Limit, werr), art("limit", extra))
+				continue
+			}
+			res := read(t, w.out.Bytes(), 0)
+			if res.panic != "" || res.err != nil {
+				r.Violate("C35|limit|read-refused|"+sigTail, fmt.Sprintf("a %s message with %d elements in %s (limit %s = %d) is written by the node but cannot be read back: %v %s", c.cmd, n, lim.Path, lim.Const, lim.Limit, res.err, res.panic), art("limit", extra))
+				continue
+			}
+			if ok, d := wire.Equal(sp.Value, res.msg); !ok {
+				r.Violate("C35|limit|roundtrip-diff|"+sigTail, "a message at its documented limit is read back different at "+d, art("limit", extra))
+				continue
+			}
+			st.classes["within limit: round trip"]++
+			st.distinct[fmt.Sprintf("%s|%s|limit|%s|%d", t.name, c.cmd, lim.Path, n-lim.Limit)] = true
+		}
+	}
 }
 
 type workerOut struct {
@@ -569,7 +633,7 @@ func main() {
 	r.Finish(evid.Coverage{
 		"evaluations":         st.evals,
 		"distinct_nontrivial": len(st.distinct),
-		"rule": "per (table, command): write/read round trip; every single-byte substitution of header and payload over the byte alphabet; declared length ∈ {0, len−1, len+1, MaxLength, MaxLength+1, 2^31, 2^32−1} with stale and recomputed checksum, stream cut or zero-padded; unknown commands; wrong magics; every truncation of the frame. " +
+		"rule": "per (table, command): write/read round trip; every single-byte substitution of header and payload over the byte alphabet; declared length ∈ {0, len−1, len+1, MaxLength, MaxLength+1, 2^31, 2^32−1} with stale and recomputed checksum, stream cut or zero-padded; unknown commands; wrong magics; every truncation of the frame; for every documented per-message limit (repository constants) counts limit−1, limit (must round-trip) and limit+1 (must be refused). " +
 			"distinct_nontrivial = distinct (table, command, corruption kind, rejection class) combinations + round trips",
 		"exhaustive":                     exhaustive,
 		"worker_deaths":                  deaths,
